@@ -165,6 +165,15 @@ func (n *DNet) Inject(src, dst *net.UDPAddr, data []byte) *Dgram {
 	return d
 }
 
+// InjectBorn is Inject for a datagram that was written at an earlier simulated time (relayed from a shim).
+func (n *DNet) InjectBorn(src, dst *net.UDPAddr, data []byte, born time.Duration) *Dgram {
+	d := n.Inject(src, dst, data)
+	n.mu.Lock()
+	d.Born = born
+	n.mu.Unlock()
+	return d
+}
+
 // Take removes and returns the pending datagram d.
 func (n *DNet) Take(d *Dgram) {
 	n.mu.Lock()
